@@ -222,9 +222,29 @@ def r4_thread_write_set(ctx, rule):
         ctx.ok(rule, KEY, 'the only shared state written from the keyboard thread (%d functions) is the quit flag' % len(par), facts)
 
 
+def r5_thread_stdout(ctx, rule):
+    """Nothing the keyboard/status thread can reach writes to stdout (a status request would splice text into the stream)."""
+    from ..effects import stdout_write
+    cg = ctx.cg
+    closure = ctx.resolver.closure(['pcfg_guesser.py'])
+    par = cg.reach([KEY], closure)
+    bad = False
+    n = 0
+    for q in sorted(par):
+        for c in calls_in(ctx.repo.fn(q)):
+            n += 1
+            w = stdout_write(c)
+            if w:
+                bad = True
+                ctx.bad(rule, q, 'status thread writes to stdout: ' + U(c)[:70], 'a status/help request must not alter the guess '
+                        'stream (path %s)' % ' -> '.join(cg.path_to(par, q)), None, c)
+    if ctx.floor(rule, KEY, n, 50, 'call sites reachable from keypress') and not bad:
+        ctx.ok(rule, KEY, 'no stdout write among the %d call sites reachable from the keyboard thread' % n)
+
+
 def rules(tier):
     return [('C12.R1', r1_no_liveness_exit), ('C12.R2', r2_quit_flag_writers), ('C12.R3', r3_quit_points),
-            ('C12.R4', r4_thread_write_set)]
+            ('C12.R4', r4_thread_write_set), ('C12.R5', r5_thread_stdout)]
 
 
 META = {
